@@ -6,6 +6,7 @@ package c07
 import (
 	"encoding/json"
 	"fmt"
+	"github.com/Syuparn/pangaea/runscript"
 	"os"
 	"os/exec"
 	"path/filepath"
@@ -177,11 +178,26 @@ type tcase struct {
 var all []construct
 
 func init() {
-	all = append(append(append([]construct{}, constructs...), chainConstructs()...), consumerConstructs()...)
+	all = append(append(append(append([]construct{}, constructs...), chainConstructs()...), consumerConstructs()...), continuedChainConstructs()...)
 }
 
 // consumerConstructs: every native Iterable method applied to an iterator whose first step raises
 // (lazy results are drained with .A): the error of the explicitly called step must come out.
+// continuedChainConstructs: chains written on a continuation line, with additional context and chain argument
+func continuedChainConstructs() []construct {
+	var cs []construct
+	for _, ad := range []string{"", "&", "~", "="} {
+		if ad == "~" {
+			continue // a thoughtful chain is itself a handler
+		}
+		cs = append(cs,
+			construct{Name: "continued-chain-" + ad + "@-chainarg", Tmpl: "[[1, 2]]\n  |" + ad + "@(§0)at(§1)", Slots: []string{"[]", "[0]"}},
+			construct{Name: "continued-chain-" + ad + "$-chainarg", Tmpl: "[1, 2]\n  |" + ad + "$(§0)+(§1)", Slots: []string{"0", "1"}},
+			construct{Name: "continued-literal-chain-" + ad + "@-chainarg", Tmpl: "[[1, 2]]\n  |" + ad + "@(§0){|x| x}", Slots: []string{"[]"}})
+	}
+	return cs
+}
+
 func consumerConstructs() []construct {
 	calls := []string{"A", "avg", "empty?", "first", "last", "max", "min", "std", "sum", "tally", "withI.A",
 		"acc({|a, b| b}).A", "all? {|x| true}", "any? {|x| false}", "exclude {|x| false}", "find {|x| false}", "keyBy {|x| x}", "lazyMap({|x| x}).A", "map {|x| x}",
@@ -672,6 +688,42 @@ func judgeLoad(c *core.Ctx, t loadCase) {
 		Observed: fmt.Sprintf("stdout %q, exit %d, stderr starting %q", so.String(), code, first)})
 }
 
+// ---------------------------------------------------------------- the REPL as outermost handler
+
+// One scanned source (a line in single-line mode, a block in multi-line mode) is a statement list: after a
+// statement raised, the later statements of that source are not evaluated (no output, no assignment).
+func sweepREPL(c *core.Ctx) {
+	type rc struct{ name, stdin, mustNot, must string }
+	cases := []rc{
+		{"single-line", "x := 1\n\"before\".p; raise ValueErr.new(\"boom\"); \"after\".p; x := 2\nx\n", "after", "ValueErr: boom"},
+		{"single-line-nested", "x := 1\nf := {|| 1 / 0}\n\"before\".p; [1, f(), 3]; \"after\".p; x := 2\nx\n", "after", "ZeroDivisionErr"},
+		{"multi-line", "x := 1\nmulti\n\"before\".p\nraise ValueErr.new(\"boom\")\n\"after\".p\nx := 2\n\nx\n\n", "after", "ValueErr: boom"},
+		{"multi-line-nested", "x := 1\nmulti\n\"before\".p\ny := nil.zz_nope\n\"after\".p\nx := 2\n\nx\n\n", "after", "NoPropErr"},
+	}
+	tk.Sharded(c, len(cases), func(i int) {
+		t := cases[i]
+		c.Eval(1)
+		c.Validated(1)
+		c.Nontrivial(1)
+		var out strings.Builder
+		func() {
+			defer func() {
+				if p := recover(); p != nil {
+					fmt.Fprintf(&out, "HOST PANIC: %v", p)
+				}
+			}()
+			runscript.StartREPL("", strings.NewReader(t.stdin), &out)
+		}()
+		o := out.String()
+		// the last echo must be the value x had before the failing source: 1
+		ok := !strings.Contains(o, t.mustNot) && strings.Contains(o, t.must) && strings.Contains(o, "before") && !strings.Contains(o, "\n2\n") && !strings.HasSuffix(strings.TrimSpace(o), "2")
+		c.Outcome("repl:" + map[bool]string{true: "ok", false: "differs"}[ok])
+		if !ok {
+			c.Violation(core.Violation{Key: "repl/" + t.name + "/continued-after-raise", Case: core.JSON(map[string]string{"mode": "repl", "name": t.name}), Desc: fmt.Sprintf("REPL input %q", t.stdin), Expected: "the error " + t.must + ", nothing of the same source after it, x still 1", Observed: fmt.Sprintf("%.400q", o)})
+		}
+	})
+}
+
 func run(c *core.Ctx) {
 	c.Note("constructs", len(all))
 	findLeaky(c)
@@ -699,6 +751,7 @@ func run(c *core.Ctx) {
 	cs := cliCases()
 	tk.Sharded(c, len(cs), func(i int) { judgeCLI(c, cs[i]) })
 	c.Note("command_line_cases_total", len(cs))
+	sweepREPL(c)
 	ls := loadCases()
 	tk.Sharded(c, len(ls), func(i int) { judgeLoad(c, ls[i]) })
 	c.Note("thunk_cases_total", total)
@@ -960,6 +1013,11 @@ func replay(c *core.Ctx, raw json.RawMessage) {
 		obs := c.R().Thunks(prelude, []string{cb.src()}, "")
 		c.Eval(1)
 		judgeCallback(c, cb, obs[0])
+		return
+	}
+	var rp struct{ Mode string }
+	if json.Unmarshal(raw, &rp) == nil && rp.Mode == "repl" {
+		sweepREPL(c)
 		return
 	}
 	var lc loadCase
